@@ -97,7 +97,11 @@ impl EasingFunction for PolyEasing {
     fn calc(&self, x: f32) -> f32 {
         match self.0 {
             1 => x * x,
-            _ => 1.0 - (1.0 - x) * (1.0 - x),
+            2 => 1.0 - (1.0 - x) * (1.0 - x),
+            // deliberately NOT anchored at (0,0)/(1,1): a custom easing is used as given
+            3 => 0.25 + 0.5 * x,
+            4 => 1.0,
+            _ => 4.0 * x * (1.0 - x),
         }
     }
 }
